@@ -170,50 +170,58 @@ func corpusHistories() map[string]*History {
 	// into an optional, into storage; target itself destroyed / moved into an array)
 	cp := func(kind, src string, r, r0 int64) Stmt { return st(kind, src, Cmd{Op: CRefCopy, R: r, R0: r0}) }
 	nest := []Stmt{mk(1, false, false, 1), mk(2, false, true, 2), appendTo(1, 2),
-		st("refStep", "let r3 = C.idn(&x1.arr[0] as &{C.I})", Cmd{Op: CRefStep, R: 3, B: Base{X: 1}, Sl: Slot{Kind: SlArr, I: 0}})}
+		st("refStep", "let r30 = C.idn(&x1.arr[0] as &{C.I})", Cmd{Op: CRefStep, R: 30, B: Base{X: 1}, Sl: Slot{Kind: SlArr, I: 0}}),
+		st("refCast", "let r3 = r30 as! &C.R", Cmd{Op: CRefCast, R: 3, R0: 30, Ty: TR, Forced: true})}
 	useN := func(r int64) Stmt { return st("use:UTag", "log("+rname(r)+".tag)", Cmd{Op: CUse, R: r, K: UTag}) }
 	useO := func(r int64) Stmt { return st("useOpt", "log("+rname(r)+"?.tag)", Cmd{Op: CUse, R: r, K: UOptTag}) }
 	out["c04_reread_struct_field_outer_moved"] = &History{Txs: []*Tx{{Stmts: cat(nest,
-		cp("holderMake:struct", "let h4 = C.Holder(r3)", 4, 3),
-		cp("holderRead:struct", "let r5 = (&h4 as &C.Holder).ref", 5, 4),
+		cp("holderMake:struct", "let h4 = C.HolderR(r3)", 4, 3),
+		cp("holderRead:struct", "let r5 = (&h4 as &C.HolderR).ref", 5, 4),
 		useN(5),
 		st("moveVar", "var x6: @{C.I} <- x1", xfer(pvar(6), splace(pvar(1), false))),
 		useN(5), destroyV(6))}}}
 	out["c04_reread_function_outer_into_optional"] = &History{Txs: []*Tx{{Stmts: cat(nest,
-		cp("holderMake:array", "let h4: [&{C.I}] = [C.idn(r3)]", 4, 3),
-		cp("holderRead:array", "let r5 = C.viaArray(&h4 as &[&{C.I}], 0)", 5, 4),
+		cp("holderMake:array", "let h4: [&C.R] = [r3]", 4, 3),
+		cp("holderRead:array", "let r5 = C.viaArrayR(&h4 as &[&C.R], 0)", 5, 4),
 		useN(5),
 		st("moveVar", "var x6: @{C.I}? <- x1", xfer(pvar(6), splace(pvar(1), false))),
 		useN(5), destroyV(6))}}}
 	out["c04_reread_array_index_outer_saved"] = &History{Txs: []*Tx{{Stmts: cat(nest,
-		cp("holderMake:array", "let h4: [&{C.I}] = [C.idn(r3)]", 4, 3),
-		cp("holderRead:array", "let r5 = (&h4 as &[&{C.I}])[0]", 5, 4),
+		cp("holderMake:array", "let h4: [&C.R] = [r3]", 4, 3),
+		cp("holderRead:array", "let r5 = (&h4 as &[&C.R])[0]", 5, 4),
 		saveV(1, 3),
 		useN(5))}}}
 	out["c04_reread_dict_target_destroyed"] = &History{Txs: []*Tx{{Stmts: cat(nest,
-		cp("holderMake:dict", `let h4: {String: &{C.I}} = {"a": C.idn(r3)}`, 4, 3),
-		cp("holderRead:dict", `let r5 = (&h4 as &{String: &{C.I}})["a"]`, 5, 4),
+		cp("holderMake:dict", `let h4: {String: &C.R} = {"a": r3}`, 4, 3),
+		cp("holderRead:dict", `let r5 = (&h4 as &{String: &C.R})["a"]`, 5, 4),
 		useO(5),
 		st("arrRemove", "var x6: @{C.I} <- x1.arr.remove(at: 0)", xfer(pvar(6), splace(pchild(Base{X: 1}, Slot{Kind: SlArr, I: 0}), false))),
 		destroyV(6),
 		useO(5), destroyV(1))}}}
 	out["c04_reread_optional_chain_copy_holder"] = &History{Txs: []*Tx{{Stmts: cat(nest,
-		cp("holderMake:optstruct", "let h4: C.Holder? = C.Holder(r3)", 4, 3),
+		cp("holderMake:optstruct", "let h4: C.HolderR? = C.HolderR(r3)", 4, 3),
 		cp("holderCopy", "let h7 = h4", 7, 4),
-		cp("holderRead:optstruct", "let r5 = (&h7 as &C.Holder?)?.ref", 5, 7),
-		cp("holderRead:struct", "let r8 = C.viaHolder(&(h4!) as &C.Holder)", 8, 4),
+		cp("holderRead:optstruct", "let r5 = (&h7 as &C.HolderR?)?.ref", 5, 7),
+		cp("holderRead:struct", "let r8 = C.viaHolderR(&(h4!) as &C.HolderR)", 8, 4),
 		useO(5), useN(8),
 		mk(9, false, false, 9),
 		Stmt{Kind: "swapVars", Src: "x1 <-> x9", Cmds: swap3(pvar(1), pvar(9), 97)},
 		useN(8), destroyV(1), destroyV(9))}}}
 	out["c04_reread_after_move_fails_at_reread"] = &History{Txs: []*Tx{{Stmts: cat(nest,
-		cp("holderMake:struct", "let h4 = C.Holder(r3)", 4, 3),
+		cp("holderMake:struct", "let h4 = C.HolderR(r3)", 4, 3),
 		st("moveVar", "var x6: @{C.I} <- x1", xfer(pvar(6), splace(pvar(1), false))),
-		cp("holderRead:struct", "let r5 = (&h4 as &C.Holder).ref", 5, 4),
+		cp("holderRead:struct", "let r5 = (&h4 as &C.HolderR).ref", 5, 4),
 		destroyV(6))}}}
 	// known defect (interpreter): plainly copying an invalidated reference value crashes with a
 	// nil dereference inside EphemeralReferenceValue.StaticType instead of the invalidated-reference error
 	out["c04_copy_invalidated_reference"] = &History{KnownKey: "copy-invalidated-reference:interpreter", KnownEngine: "interpreter",
+		Txs: []*Tx{{Stmts: cat(nest,
+			st("moveVar", "var x6: @{C.I} <- x1", xfer(pvar(6), splace(pvar(1), false))),
+			cp("refCopy", "let r5 = r30", 5, 30),
+			destroyV(6))}}}
+	// same defect when the reference's static type was computed before (here by the cast): the copy
+	// of the invalidated reference silently succeeds in the interpreter
+	out["c04_copy_invalidated_reference_cached_type"] = &History{KnownKey: "copy-invalidated-reference:interpreter", KnownEngine: "interpreter",
 		Txs: []*Tx{{Stmts: cat(nest,
 			st("moveVar", "var x6: @{C.I} <- x1", xfer(pvar(6), splace(pvar(1), false))),
 			cp("refCopy", "let r5 = r3", 5, 3),
